@@ -36,6 +36,7 @@ type SupDesc struct {
 type BlockDesc struct {
 	Parent int       `json:"parent"` // index into the world's block list (0 = genesis); taken modulo the number of blocks built so far
 	Skip   int       `json:"skip,omitempty"`
+	Jitter int       `json:"jitter,omitempty"` // milliseconds added to the timestamp (taken modulo the interval): block times need not be multiples of the interval
 	Txs    []TxDesc  `json:"txs,omitempty"`
 	Sup    []SupDesc `json:"sup,omitempty"`
 	Mut    string    `json:"mut,omitempty"` // single-rule header/coinbase mutation (C13); "" = none
@@ -563,7 +564,7 @@ func (w *World) Add(bd BlockDesc) int {
 	par := w.Blocks[parent]
 	ps := par.State
 	h := par.Block.Height + 1
-	ts := par.Block.Timestamp + IntervalMs*uint64(1+abs(bd.Skip)%4)
+	ts := par.Block.Timestamp + IntervalMs*uint64(1+abs(bd.Skip)%4) + uint64(abs(bd.Jitter))%IntervalMs
 	info := &BlockInfo{Idx: idx, Parent: parent, Desc: bd}
 
 	// proposer from the model
